@@ -161,7 +161,9 @@ def directed(rng, tier, idents):
             n = rng.choice([0, 1, 1, 2, 3, 4, 9, 12])
             fs = [rng.randrange(0, nfun + 1) for _ in range(n)]
             if n >= 9:
-                fs = [fs[0]] * n                 # a long run of one function (loop-compressed initialisers)
+                # runs of one function (loop-compressed initialisers): a run that ends the segment, or one followed by other entries
+                run_ = rng.choice([4, 5, 8, n])
+                fs = [fs[0]] * run_ + fs[run_:]
             kind = rng.choice(["c", "c", "g0", "g1"])
             base = rng.randrange(0, 16 - n + 1) if kind == "c" else gvals[int(kind[1])]
             if base + n > 16:
@@ -179,6 +181,17 @@ def directed(rng, tier, idents):
         for s_ in sorted(slot):
             script.append({"op": "call", "inst": 1, "export": "icall", "args": [arg("i32", s_), arg("i32", 1)]})
         items.append({"id": "seg%d" % j, "module": m, "script": script})
+    # (c3) fixed layouts with runs of one function inside a segment (4, 8 entries), followed by other entries
+    for j, layout in enumerate(([(0, [1, 1, 1, 1, 2]), (6, [3, 3, 3, 3, 3, 3, 3, 3, 4, 5])], [(1, [2] * 9), (10, [1, 1, 1, 1]), (14, [5, 5])],
+                                [(0, [4, 4, 4, 4, 4, 1, 4, 4, 4, 4, 2])])):
+        types = [{"p": ["i32"], "r": ["i32"]}, {"p": ["i32", "i32"], "r": ["i32"]}]
+        funcs = [{"type": 0, "locals": [], "body": [["local.get", 0], ["i32.const", b32(100 * (k + 1))], ["i32.add"], ["end"]]} for k in range(6)]
+        funcs.append({"type": 1, "locals": [], "body": [["local.get", 1], ["local.get", 0], ["call_indirect", 0, 0], ["end"]]})
+        m = {"types": types, "funcs": funcs, "table": {"min": 16, "max": 16},
+             "elems": [{"offset": ["i32.const", b32(o_)], "funcs": fs_} for o_, fs_ in layout], "exports": [{"name": "icall", "kind": "func", "idx": 6}]}
+        slots = sorted({o_ + i_ for o_, fs_ in layout for i_ in range(len(fs_))})
+        items.append({"id": "segrun%d" % j, "module": m,
+                      "script": [inst()] + [{"op": "call", "inst": 1, "export": "icall", "args": [arg("i32", s_), arg("i32", 1)]} for s_ in slots]})
     # (d) import names: distinct imports must stay distinct; identifiers come from Mangle.tla
     pairs = [("env", "f"), ("env", "f_g"), ("env", "f__g"), ("a_", "b"), ("a", "_b"), ("m0", "Xx"), ("m0", "x$y"), ("m_0", "x.y-z")]
     imports = []
